@@ -74,12 +74,17 @@ func TestSurvey(t *testing.T) {
 		c := c
 		note("mat-valid-edge", c, guarded(func() *vk.Failure { return checkEdge(c) }, c.Name), c.N+c.M)
 	}
+	vc := viewCases()
+	for _, c := range vc {
+		c := c
+		note("mat-view-history", c, guarded(func() *vk.Failure { return checkView(c) }, c.Type), c.R+c.C+len(c.Ops))
+	}
 	keys := make([]string, 0, len(seen))
 	for k := range seen {
 		keys = append(keys, k)
 	}
 	sort.Strings(keys)
-	fmt.Printf("survey: %d+%d+%d cases, %d methods, %d distinct failure keys\n", len(cases), len(ic), len(ec), len(methods), len(keys))
+	fmt.Printf("survey: %d+%d+%d+%d cases, %d methods, %d distinct failure keys\n", len(cases), len(ic), len(ec), len(vc), len(methods), len(keys))
 	dir := os.Getenv("C07MAT_SURVEY_DIR")
 	for _, k := range keys {
 		h := seen[k]
